@@ -582,8 +582,13 @@ func genFnCase(r *vlib.R, emit func(string)) int {
 				// relative to the real clock at op time: the scoped ECS cap is measured from time.Now()
 				cut = tilde(r, fmt.Sprint(vlib.Pick(r, []int64{2e9, 30e9, 300e9, 3600e9, 86400e9})+int64(r.Range(-1, 1))))
 			}
-			e(fmt.Sprintf("wr %s %s %d %s %d %d", vlib.Pick(r, []string{"key", "subq", "scoped", "scoped", "prefetch", "prefetch-ecs"}),
-				vlib.Pick(r, []string{"pos", "nx", "nodata"}), vlib.Pick(r, []int{1, 60, 300, 86400}), cut, 1+r.Intn(9), vlib.Pick(r, []int{0, 0, 1, 60, 3600, 86400})))
+			path := vlib.Pick(r, []string{"key", "subq", "scoped", "scoped", "prefetch", "prefetch-ecs"})
+			kind := vlib.Pick(r, []string{"pos", "nx", "nodata"})
+			if strings.HasPrefix(path, "prefetch") && r.Chance(1, 2) {
+				// the refresh comes back with another kind of answer — or fails
+				kind += ">" + vlib.Pick(r, []string{"pos", "nx", "nodata", "servfail", "servfail"})
+			}
+			e(fmt.Sprintf("wr %s %s %d %s %d %d", path, kind, vlib.Pick(r, []int{1, 60, 300, 86400}), cut, 1+r.Intn(9), vlib.Pick(r, []int{0, 0, 1, 60, 3600, 86400})))
 		}
 	case 9: // synthesized denials
 		e("dpx new")
